@@ -24,6 +24,8 @@ WORK = os.environ.get("ABYSS_MUT_WORK", "/tmp/abyss-mu")
 # order: the checks with the broadest histories first; the search for one mutant stops at the first failing input
 PROPS = ["C01", "C05", "C06", "C04", "C02", "C17", "C14", "C03", "C16", "C07", "C10", "C11", "C13", "C15", "C18", "C08", "C09", "C12"]
 ENV = dict(os.environ, CARGO_NET_OFFLINE="true")
+# a copy of the translator taken when the run started (so that work on tools/rs2lean.py does not disturb a long run)
+TRANSLATOR = os.path.join(WORK, "rs2lean.py") if os.path.exists(os.path.join(WORK, "rs2lean.py")) else os.path.join(ROOT, "tools", "rs2lean.py")
 
 SKIP_LINE = re.compile(r"^\s*(\"|//|#\[|use |pub use |mod |pub mod |debug_assert|assert|fn |pub fn |pub\(crate\) fn |pub\(super\) fn |impl|struct |pub struct |enum |trait |where|type |pub type |\*|/\*)")
 
@@ -161,7 +163,7 @@ def one(k, site, base_gen):
         res["patch"] = diff
         # translator class
         gd = tempfile.mkdtemp(prefix="gen", dir=WORK)
-        rc, out = sh([sys.executable, os.path.join(ROOT, "tools", "rs2lean.py"), wt, gd])
+        rc, out = sh([sys.executable, TRANSLATOR, wt, gd])
         if rc != 0:
             res["translator"] = "exit2"
             res["translator_msg"] = out.strip()[-300:]
@@ -242,7 +244,7 @@ def main():
         shutil.rmtree(bg, ignore_errors=True)
         os.makedirs(bg)
         wt0, _ = setup_worker(0)
-        rc, out = sh([sys.executable, os.path.join(ROOT, "tools", "rs2lean.py"), wt0, bg])
+        rc, out = sh([sys.executable, TRANSLATOR, wt0, bg])
         assert rc == 0, out
         base_gen = norm_gen(bg)
         if not os.path.exists(os.path.join(WORK, "abyss-driver")):
